@@ -278,6 +278,9 @@ class Interp:
                 v = self.read_res(st, cur)
                 if v is not None and v[0] == 'ref':
                     cur = ('cell', v[1], v[2])
+                elif v is not None and v[0] == 'bitermut' and v[1] is not None and v[1][0] == 'ref':
+                    # element-wise abstraction: `*x` for x drawn from iter_mut() stands for the whole buffer
+                    cur = ('cell', v[1][1], v[1][2])
                 else:
                     cur = ('val', v)
             elif kind == 'field':
@@ -452,6 +455,11 @@ class Interp:
                 return Int(r)
         a = freeze(st, a)
         b = freeze(st, b)
+        if base == 'BitXor':
+            import models
+            ua = a[1] if a[0] == 'biter' else a
+            ub = b[1] if b[0] == 'biter' else b
+            return models.mk_xor(ua, ub)
         if 'WithOverflow' in op:
             return ('tuple', (App(base, a, b), App('ovf', App(base, a, b))))
         return App(base, a, b)
